@@ -281,6 +281,8 @@ def probe(cfg: Dict[str, Any], draw: int, up_draw: int = 0, backward: bool = Tru
     """One observation of one configuration. `runner(fn, inputs)` lets C20 swap the
     execution mode (eager / torch.compile / fx) of the unit-scaled call."""
     b = build(cfg, draw)
+    if cfg.get("grad_only") is not None:     # only these slots require grad (first layer: data input does not; fine-tuning: frozen weights)
+        b.diff = [k for k in b.diff if k in cfg["grad_only"]]
     rg = not cfg.get("frozen", False)
     lay = _strided if cfg.get("layout") == "strided" else (lambda t: t)
     ins_u = OrderedDict((k, (lay(v.clone()).requires_grad_(True) if (rg and k in b.diff and v.is_floating_point()) else lay(v.clone()))) for k, v in b.inputs.items())
@@ -469,6 +471,18 @@ def configs(rng: random.Random, size: str) -> List[Dict[str, Any]]:
     for red in ("mean", "sum"):
         for sh in ([3], [2, 3], [1], [2, 1, 4], []):
             C.append({"op": "mse_loss", "shape": sh, "reduction": red})
+    # requires_grad is not all-or-nothing: each differentiable slot alone, and all but one
+    part = []
+    for c in rng.sample(C, len(C) // 6):
+        try:
+            slots = list(build(c, 0).diff)
+        except Exception:
+            continue
+        if len(slots) >= 2:
+            k = rng.choice(slots)
+            part.append(dict(c, grad_only=[k]))
+            part.append(dict(c, grad_only=[x for x in slots if x != k]))
+    C += part
     # the same call with non-contiguous inputs / with every argument passed by keyword
     var = []
     for c in rng.sample(C, len(C) // 8):
